@@ -174,6 +174,16 @@ Definition join (q : quirks) (p : path) (b : bytes) : option path :=
   else if q_name_escapes q then Some (fold_left step (segs b []) p) else None.
 
 Definition isSome {A} (o : option A) : bool := match o with Some _ => true | None => false end.
+
+(* validation of the config tuple that does not depend on the target: merge must not have `file`;
+   (repaired only) replace must have exactly one of dir/file -- today this is checked only when the
+   target exists, which for a fresh target happens by accident because the dry run created it *)
+Definition precheck (q : quirks) (w : word) (d f : option val) : bool :=
+  match w with
+  | WMerge => isSome f
+  | WReplace => negb (q_dry_mkdir q) && Bool.eqb (isSome d) (isSome f)
+  | _ => false
+  end.
 Definition is_multi (v : val) : bool := match v with VMulti => true | _ => false end.
 
 Section Out.
@@ -285,7 +295,7 @@ Fixpoint out (r : role) (dry : bool) (v : val) (p : path) (s : st) {struct v} : 
           match word_of wb with
           | None => Err s
           | Some w =>
-            if (match w with WMerge => isSome f | _ => false end) then Err s else
+            if precheck q w d f then Err s else
             let (sr, s1) := op_stat p s in
             let existing (s1 : st) : res :=
               match w with
